@@ -102,18 +102,19 @@ PROPS["C17"] = P(["codec", "driver"],
     "Trusted: " + TB_COMMON + " env/codec_env.rs: BytesMut (split_to, range index, len), and the std semantics of iter().zip(iter().skip(1)).position(pred) (first index whose pair satisfies the predicate) as an env iterator model; the predicate closure itself is checked (E8). utf8() is under an assumed contract; encode() is not under contract (vstd has no usable spec for str::len / as_bytes). "
     "env/driver_env.rs: tokio mpsc send/try_send, the two json! reply shapes as opaque constructors. NOT APPLICABLE clauses: FramedRead's read loop (tokio-util), that every request reaches dispatch_one and its task is spawned (boxed callbacks, tokio::spawn), non-interleaved concurrent writes (tokio::spawn'ed boxed callbacks, json!, FramedWrite behind a mutex), JSON well-formedness (serde_json).",
     assumptions=["tokio-util FramedRead appends the bytes read and calls decode until it returns None", "std slice iteration semantics (env model)"],
-    not_covered=["MultiLineCodec::encode", "the plugin driver loop (src/cln_plugin/mod.rs)", "logging writer"])
+    not_covered=["MultiLineCodec::encode", "the plugin driver loop PluginDriver::run and dispatch_one outside the reply slice (src/cln_plugin/mod.rs): in particular where an await sits relative to the select! of run -- a reply or notification already taken is lost if its future is dropped part-way; cancellation of partially executed futures is not modelled", "logging writer"])
 
 PROPS["C19"] = P(["config", "provider", "initopts"],
-    "Proof (Verus) on two E6 slices of main() (src/main.rs): (a) from the first cp.option(..) to the construction of the payment provider, (b) the statement that builds HtlcManager::new(HtlcManagerParams{..}): it refuses to start iff a value is out of its target range or policy delta <= safety delta; otherwise safety delta, advertised/enforced policy, MPP timeout, self-route-hint flag, payment timeout and xpay equal the configured values (options are distinct opaque tokens, so a swapped option is a failed obligation). PayPaymentProvider::new caps the retry time at 65535 s.",
+    "Proof (Verus) on two E6 slices of main() (src/main.rs): (a) from the first cp.option(..) to the construction of the payment provider, (b) the statement that builds HtlcManager::new(HtlcManagerParams{..}): it refuses to start iff a value is out of its target range or policy delta <= safety delta; (c) the statement of Builder::handle_init (src/cln_plugin/mod.rs) that turns the `init` message's JSON value into the option's value: the configured string/integer/bool exactly, the declared default when absent, no normal return for any other JSON type; otherwise safety delta, advertised/enforced policy, MPP timeout, self-route-hint flag, payment timeout and xpay equal the configured values (options are distinct opaque tokens, so a swapped option is a failed obligation). PayPaymentProvider::new caps the retry time at 65535 s.",
     "Trusted: " + TB_COMMON + " env/config_env.rs (ConfiguredPlugin::option returns the value CLN delivered: uninterpreted cfg_*; E11: option descriptors become opaque distinct tokens, name/default/description dropped). HtlcManager::new is verified to store the parameters as given; PayPaymentProvider::new enters under its contract (proved in unit provider). The statements of main() between the two slices (block watcher start, store, e-mail service) are not under contract; that the locals flowing from slice (a) into slice (b) are the same is plain data flow of main() (no reassignment), checked by rustc's immutability (the locals are not `mut`).",
-    assumptions=["CLN delivers the option values (handle_init) as configured"],
-    not_covered=["statements of main() between the two slices"])
+    assumptions=["ConfiguredPlugin::option hands main() the value that handle_init stored for that option (the HashMap between the two is not under contract)"],
+    not_covered=["statements of main() between the two slices", "in handle_init a number that is not an i64 must make the plugin refuse (panic): Verus cannot tell a panic from 'continues with some integer', so only 'nothing other than the configured integer' is decided"])
 
 PROPS["C20"] = P(["height", "rpc"],
     "Proof (Verus): update_height leaves the shared cell at max(value found under the lock, new height) = the maximum of all heights told so far, never lower than before; new_block, poll_height and current_height reach the cell only through update_height / a read under the same mutex. Holds under every interleaving because the update is one critical section and every other updater guarantees the same postcondition. Catch-up clause in its safety form: the polling task poll_forever (verbatim, E3 on its select!, loop invariant) never asks the timer for a wait longer than the declared POLL_INTERVAL and starts a new wait only when every earlier wake-up was followed by a poll_height call (failed polls included); a successful poll leaves the height at least at what the node reported. That the timer fires and the task is scheduled in time is not applicable.",
     "Trusted: " + TB_COMMON + " env/height_env.rs (tokio Mutex<u32>: exclusive access; other holders only run update_height). env timer/shutdown channel of poll_forever with ghost wake-up counters (PollGhost). POLL_INTERVAL enters by E13 (exec const + reflection contract). NOT APPLICABLE part of the catch-up clause: that tokio's timer fires on time and the task gets scheduled (liveness); start()'s spawn of poll_forever is not under contract.",
-    assumptions=["only the functions of block_watcher.rs write the height cell (field is private to the module)"])
+    assumptions=["only the functions of block_watcher.rs write the height cell (field is private to the module)"],
+    not_covered=["that every block_added notification the node sends reaches new_block, and that start() spawns poll_forever (src/cln_plugin/mod.rs dispatch_one and BlockWatcher::start are not under contract): 'told' means new_block / poll_height was called"])
 
 PROPS["C18"] = dict(P(["tlv_dec", "tlv_enc", "tlv_get"],
     "Proof (Verus, unbounded loop invariant): get_compact_size, SerializedTlvStream::from_bytes and try_from(Vec<u8>) as extracted from src/tlv.rs are total (every bytes::Buf getter's remaining-length precondition is discharged: no panic on any byte string) and return exactly parse(bytes) of the BigSize/TLV spec functions in specs/tlv_spec.rs. Encoder: put_compact_size appends exactly cs_enc(x) (minimal BigSize), to_bytes returns the concatenation of the record encodings (loop invariant), and lemma_cs_roundtrip proves cs_dec(cs_enc(x) ++ rest) == (x, len) for all u64. Lemmas (checked on every run): lemma_parse_of_encoding: parse(enc_all(es)) == Some(es) for every record sequence (encode-then-decode reproduces the records), lemma_decode_then_encode: for every byte string that is an encoding (valid, minimally encoded stream) decoding then encoding reproduces the bytes. Composed with from_bytes == parse and to_bytes == enc_all this is the lossless clause for the real functions. Record access: get returns the first record of the type (None iff there is none), remove deletes exactly that record and keeps all others byte for byte and in order (unit tlv_get, real bodies, hint-free).",
